@@ -30,6 +30,35 @@ fn main() {
                 }
             }
         }
+        Some("fuzz") if args.len() >= 3 => {
+            // the coverage-guided stage on its own: fuzz <ID> <seconds>
+            vcheck::sim::init_epoch();
+            vcheck::sim::install_panic_hook();
+            let dir = vcheck::sup::work_dir(&args[1]);
+            let seed = std::env::var("VERIF_SEED").ok().and_then(|s| s.parse().ok()).unwrap_or(0);
+            let fo = vcheck::sup::fuzz_stage(&args[1], seed, args[2].parse().unwrap_or(60), &dir);
+            println!("{}", serde_json::to_string_pretty(&fo.summary).unwrap());
+            for o in &fo.other {
+                println!("other: {}", o);
+            }
+            let _ = std::fs::remove_dir_all(&dir);
+            match fo.failure {
+                Some(f) => {
+                    let p = vcheck::runner::write_replay(&args[1], &f);
+                    println!("VIOLATION property={} replay={}\n  rule: {}\n  {}", args[1], p.display(), f.rule, f.detail);
+                    1
+                }
+                None => 0,
+            }
+        }
+        Some("fuzz-decode") if args.len() >= 3 => {
+            // turn a libFuzzer artifact into a replay file for property args[1]
+            let bytes = std::fs::read(&args[2]).expect("artifact");
+            let case = vcheck::fuzzdec::decode(&bytes);
+            let v = vcheck::sup::fuzz_input_json(&case);
+            println!("{}", serde_json::to_string_pretty(&serde_json::json!({"property": args[1], "engine": "sim", "rule": "(decoded fuzz artifact)", "detail": "", "input": v, "trace": null})).unwrap());
+            0
+        }
         Some("bench") if args.len() >= 3 => {
             vcheck::sim::init_epoch();
             vcheck::sim::install_panic_hook();
